@@ -7,12 +7,21 @@ same quantities are bounded when every `+ − * /` is rounded to binary32 (`u = 
 
 * EWMA: the value the update computes, `prev * (1.0 − L) + new * L` (`ewmaVal`; `ewmaNext_value` ties it to the model's
   `ewmaNext`, generic scalar), stays within `δ = ((1+u)^3 − 1)·max(|lo|,|hi|) + 2(1+u)·η ≤ 4·u·max(|lo|,|hi|) + 3·η` of the
-  interval `[lo, hi]` that contains `prev` and `new`, for ANY binary32 `L ∈ [0,1]` (whatever `powf` returned);
-  exact (no `δ`) for `L = 0` and `L = 1`; a kernel-checked example shows a constant input is NOT reproduced exactly for
-  some `L`, and that the tempting bound `2·u·|c|` fails for subnormal `c`.
+  interval `[lo, hi]` that contains `prev` and `new`, for ANY binary32 `L ∈ [0,1]` (whatever `powf` returned)
+  (`ewma_value_bounds_binary32`, `…_sharp`, `…_rat`, `ewmaNext_bounds_binary32`); after `k` updates the drift is at most
+  `((1+u)^(3k) − 1)·max(|lo|,|hi|) + 2k(1+u)^(3k)·η` (`ewma_fold_bounds_binary32`);
+  exact (no `δ`) for `L = 0` and `L = 1` (`ewma_lambda_zero_binary32`, `ewma_lambda_one_binary32`);
+  constant input `c`, any `L`: `c` or one of its two binary32 neighbours when `|c| ≥ 2^-126`, so `|result − c| ≤ 2·u·|c|`
+  (`ewma_constant_two_u_binary32`), in general `≤ 4·u·|c| + 3·η` (`ewma_constant_any_lambda_binary32`); kernel-checked:
+  a constant input is NOT reproduced exactly for some `L` (`ewma_constant_not_exact`), and `2·u·|c|` fails for a subnormal
+  `c` (`ewma_constant_two_u_fails_subnormal`).
 * moving average: forward error of the accumulation loop (`ma_accumulate_err`), bounds of the accumulated sum
-  (`ma_accumulate_bounds`) and of the final quotient (`ma_value_bounds_binary32`, and `…_gen` when the rounded weights sum to
-  the rounded window only up to a relative `ε`).
+  (`ma_accumulate_bounds`) and of the final quotient for abstract weights (`ma_value_bounds_binary32`, and `…_gen` when the
+  weights sum to the divisor only up to a relative `ε`); for the MODEL's weights `fl(fl(n)/1e9)` the mismatch is proved to be
+  at most `maEps = 4u/(1−u)^2` (`weights_sum_close`), which gives the rounded counterparts of `ma_convex` and
+  `ma_convex_history` with no hypothesis about weights left: `ma_convex_binary32`, `ma_convex_history_binary32`, budget
+  `maDelta n A W ≤ (2n+14)·u·A + (2n/W + 1)·η` (`maDelta_le`); kernel-checked: the constant `1.0` comes out of the moving
+  average as `1 − 2^-24` (`ma_constant_not_exact`).
 -/
 import Rrtk.Thm.C12
 import Rrtk.Thm.Lemmas.SoftScalar
@@ -242,7 +251,7 @@ theorem ewmaQ_neg (c L : ℚ) : ewmaQ (-c) L = - ewmaQ c L := by
   rw [neg_mul, neg_mul, rne32_neg, rne32_neg, ← neg_add, rne32_neg]
 
 /-- the sum of the two rounded products stays within `5/4` ulp of `c` (`3/2` ulp in the lowest normal binade) -/
-theorem ewma_const_sum_near (c L : ℚ) (hc : Rep c) (hL : Rep L) (hL0 : 0 ≤ L) (hL1 : L ≤ 1) (e : ℤ) (he : -126 ≤ e)
+theorem ewma_const_sum_near (c L : ℚ) (hL : Rep L) (hL0 : 0 ≤ L) (hL1 : L ≤ 1) (e : ℤ) (he : -126 ≤ e)
     (hce : (2:ℚ) ^ e ≤ c) (hce' : c < (2:ℚ) ^ (e + 1)) :
     0 ≤ rne32 (c * rne32 (1 - L)) + rne32 (c * L) ∧
     |rne32 (c * rne32 (1 - L)) + rne32 (c * L) - c| < 3 / 2 * (2:ℚ) ^ (e - 23) ∧
@@ -312,7 +321,7 @@ theorem ewma_const_sum_near (c L : ℚ) (hc : Rep c) (hL : Rep L) (hL0 : 0 ≤ L
 /-- positive normal `c`: the result is `c` or one of its two binary32 neighbours -/
 theorem ewma_const_pos (c L : ℚ) (hc : Rep c) (hL : Rep L) (hL0 : 0 ≤ L) (hL1 : L ≤ 1) (e : ℤ) (he : -126 ≤ e)
     (hce : (2:ℚ) ^ e ≤ c) (hce' : c < (2:ℚ) ^ (e + 1)) : |ewmaQ c L - c| ≤ (2:ℚ) ^ (e - 23) := by
-  obtain ⟨hs0, h32, h54⟩ := ewma_const_sum_near c L hc hL hL0 hL1 e he hce hce'
+  obtain ⟨hs0, h32, h54⟩ := ewma_const_sum_near c L hL hL0 hL1 e he hce hce'
   unfold ewmaQ
   set s := rne32 (c * rne32 (1 - L)) + rne32 (c * L) with hs
   rcases lt_or_ge s ((2:ℚ) ^ e) with hlow | hge
@@ -1014,6 +1023,22 @@ def constVal : Option (Int × ℚ) :=
 /-- **a constant input is NOT reproduced exactly by the moving average either**: the constant `1.0` comes out as
 `1 − 2^-24` (the weights `fl(1e-9)`, `fl(2e-9)` do not add up to `fl(3e-9)`), inside the proved budget. -/
 theorem ma_constant_not_exact : constVal = some (3, 16777215 / 16777216) := by decide +kernel
+/-- non-vacuity of `ewma_fold_bounds_binary32`: start `1.5`, then samples `2^24` (weight `≈ 0.2432`) and `1.5` (weight `0.5`),
+all inside `[3/2, 2^24]` -/
+example : (∀ x ∈ [(x2p24, lam), (x1_5, (chalf : SF))],
+      (c0 : SF) ≤ x.2 ∧ x.2 ≤ c1 ∧ (3 / 2 : ℚ) ≤ x.1.val ∧ x.1.val ≤ 16777216) ∧
+    (3 / 2 : ℚ) ≤ x1_5.val ∧ x1_5.val ≤ 16777216 := by
+  have h15 : x1_5.val = 3 / 2 := by show ((3:ℤ):ℚ) * (2:ℚ) ^ (-1:ℤ) = 3 / 2; norm_num
+  refine ⟨?_, by rw [h15], by rw [h15]; norm_num⟩
+  intro x hx
+  simp at hx
+  rcases hx with rfl | rfl
+  · exact ⟨lam_range.1, lam_range.2, by rw [x2p24_val]; norm_num, by rw [x2p24_val]⟩
+  · refine ⟨?_, ?_, by rw [h15], by rw [h15]; norm_num⟩
+    · rw [le_def, c0_val, chalf_val]; norm_num
+    · rw [le_def, c1_val, chalf_val]; norm_num
+/-- non-vacuity of `ewma_constant_two_u_binary32`: `c = 1 + 2^-23` is in the normal range -/
+example : (2:ℚ) ^ (-126:ℤ) ≤ |cSucc1.val| := by rw [cSucc1_val]; norm_num
 end RoundingExamples
 
 end Rrtk.Thm.C12
